@@ -25,6 +25,7 @@ class Frame:
         self.args = args
         self.result = result
         self.exc = exc
+        self.ghost: dict = {}
 
     def __getitem__(self, name) -> SV:
         return self.args[name]
@@ -117,6 +118,18 @@ class FnSpec:
 
     def init_ghost(self, eng, st: State):
         pass
+
+    def ghost_exit(self, eng, st: State, kind: str):
+        """ghost code at an exit of the verified body (kind: 'return' | 'raise'); may write ghost components"""
+        pass
+
+    def ghost_outputs(self, eng, st: State) -> dict:
+        """ghost results of the verified body, bound by role from the exit state (e.g. the resolved type tuple)"""
+        return {}
+
+    def fresh_ghost_outputs(self, eng, st: State) -> dict:
+        """the same ghost results as unknowns, for call sites"""
+        return {}
 
     # monitors (ghost code at semantic events)
     def on_opaque_call(self, eng, st, f, args, anchor):
@@ -237,8 +250,18 @@ class Registry:
                                                  z3.Select(new.heap[comp], x) == z3.Select(old.heap[comp], x)),
                                  patterns=[z3.Select(new.heap[comp], x)])
             return fn
-        for f in sorted(self.immutable_fields):
-            out.append((f"immutable:{f}", imm("fld:" + f)))
+        def imm_cls(cls, f):
+            def fn(old, new):
+                return z3.ForAll([x], z3.Implies(z3.And(0 <= x, x < old.alloc, subcls(z3.Select(old.heap["fld:__class__"], x), con(cls))),
+                                                 z3.Select(new.heap["fld:" + f], x) == z3.Select(old.heap["fld:" + f], x)),
+                                 patterns=[z3.Select(new.heap["fld:" + f], x)])
+            return fn
+        for item in sorted(self.immutable_fields, key=str):
+            if isinstance(item, tuple):
+                out.append((f"immutable:{item[0]}.{item[1]}", imm_cls(*item)))
+            else:
+                out.append((f"immutable:{item}", imm("fld:" + item)))
+        out.append(("immutable:__class__", imm("fld:__class__")))
         out.append(("immutable:tuple-len", imm("t_len")))
         out.append(("immutable:tuple-items", imm("t_item")))
         for f in sorted(self.unset_fields):
